@@ -71,6 +71,8 @@ def facts_at(module, func, node, no_kill=()):
         facts[:] = [f for f in facts if not (f[2] & names)]
 
     def add(test, truth):
+        # a name bound inside the test (x := ...) holds a new value from here on
+        kill(n.target.id for n in ast.walk(test) if isinstance(n, ast.NamedExpr))
         for a, t in atoms(test, truth):
             facts.append((a, t, _names(a)))
 
@@ -131,6 +133,15 @@ def _chain_facts(ifnode, add, kill, in_loop):
         if node.orelse:
             if not always_exits(node.orelse, loop_ok=in_loop):
                 survivors_assign |= assigned_names(ast.Module(body=node.orelse, type_ignores=[]))
+        break
+    nd = ifnode
+    while True:
+        # names bound by a walrus in any test of the chain hold new values afterwards
+        survivors_assign |= set(n.target.id for n in ast.walk(nd.test) if isinstance(n, ast.NamedExpr)) - \
+            set(n.target.id for t_, _ in pending if t_ is nd.test for n in ast.walk(t_) if isinstance(n, ast.NamedExpr))
+        if len(nd.orelse) == 1 and isinstance(nd.orelse[0], ast.If):
+            nd = nd.orelse[0]
+            continue
         break
     kill(survivors_assign)
     for test, truth in pending:
